@@ -83,6 +83,15 @@ theorem rock_single_slot_restored {β : Type} (cells : List (Cell β)) (k : Rest
     RestartRock.serve cells k = some [c.data] :=
   RestartRock.single_slot_restored cells k c honly hin hnx hsz hpos
 
+open SquidModel.Cache.RestartRock in
+/-- If the cells carrying key `k` are — in whatever positions of the db file, i.e. in whatever order the rebuild scans them — exactly
+the cells of ONE complete multi-slot entry (linked first to last, the inode written first without the entry size, positive payloads),
+the rebuild indexes the entry and a hit reads its pieces in chain order: identical bytes. -/
+theorem rock_single_chain_restored {β : Type} (cells : List (Cell β)) (k : RestartRock.Key) (cs : List (Cell β)) (inode : Nat)
+    (hch : IsChain k cs inode) (hlen : 2 ≤ cs.length) (hperm : (cells.filter (fun x => x.key == k)).Perm cs) :
+    RestartRock.serve cells k = some (cs.map (·.data)) :=
+  RestartRock.chain_restored cells k cs inode hch hlen hperm
+
 namespace Rock
 open SquidModel.Cache.RestartRock
 
@@ -93,6 +102,23 @@ def staleCell : Cell Nat := { slot := 9, key := 9, first := 9, next := none, pay
 /-- non-vacuity: a two-slot entry on its own is indexed and read in chain order -/
 example : RestartRock.serve live 9 = some [2, 0] := by decide
 example : RestartRock.serve live.reverse 9 = some [2, 0] := by decide
+def c0 : Cell Nat := { slot := 20, key := 4, first := 20, next := some 7, payload := 4056, entrySize := 0, data := 100 }
+def c1 : Cell Nat := { slot := 7, key := 4, first := 20, next := some 31, payload := 4056, entrySize := 0, data := 101 }
+def c2 : Cell Nat := { slot := 31, key := 4, first := 20, next := none, payload := 900, entrySize := 9012, data := 102 }
+def other : Cell Nat := { slot := 8, key := 5, first := 8, next := none, payload := 50, entrySize := 50, data := 7 }
+def stale : Cell Nat := { slot := 40, key := 4, first := 33, next := none, payload := 10, entrySize := 4066, data := 9 }
+
+/-- non-vacuity of `rock_single_chain_restored`: its hypotheses hold for a three-slot chain scanned in the order 7, 20, 31 -/
+example : IsChain 4 [c0, c1, c2] 20 ∧ ([c1, c0, c2].filter (fun x => x.key == 4)).Perm [c0, c1, c2] := by
+  refine ⟨⟨by decide, by decide, by decide, by decide, rfl, by decide, ⟨rfl, rfl, rfl⟩⟩, ?_⟩
+  exact List.Perm.swap c0 c1 [c2]
+/-- all six scan orders, also with cells of other URLs in between -/
+example : ([[c0, c1, c2], [c0, c2, c1], [c1, c0, c2], [c1, c2, c0], [c2, c0, c1], [c2, c1, c0], [c1, other, c2, c0]].map fun cs => RestartRock.serve cs 4)
+    = List.replicate 7 (some [100, 101, 102]) := by decide
+/-- a leftover non-inode cell of an older response for the same URL, anywhere in the file, drops the entry; other URLs are not affected -/
+example : ([[stale, c0, c1, c2], [c0, stale, c1, c2], [c0, c1, c2, stale], [c2, c1, stale, c0]].map fun cs => RestartRock.serve cs 4)
+    = List.replicate 4 none := by decide
+example : RestartRock.serve [stale, c0, other, c1, c2] 5 = some [7] := by decide
 end Rock
 
 /-- The full statement is false for rock: the two-slot response is complete on disk and was never purged, but one cell of an older
